@@ -1,7 +1,7 @@
 SPECIFICATION Spec
 CONSTANTS
   MaxPoint = 4
-  MaxRuns = 3
+  MaxRuns = 2
   MaxTicks = 2
   CtxChecks = TRUE
   CanClean = TRUE
